@@ -22,7 +22,7 @@ def gen_events(ctx, res):
 
 
 SCHEMA_OUTS = ["./gen/schema.d.ts", "./schema.generated.d.ts", "./out/deep/graphql.schema.d.ts", "./types/api.v2.types.d.mts", "./ops/s.d.ts",
-               "./out/x.y/schema.d.cts", "./gen/plain.ts", "./.generated/schema.d.ts", "./ops/.hidden/s.d.ts", "./sch/t.d.ts", "./op/s.d.ts"]
+               "./out/x.y/schema.d.cts", "./gen/plain.ts", "./.generated/schema.d.ts", "./ops/.hidden/s.d.ts", "./sch/t.d.ts", "./op/s.d.ts", "./Ops/s.d.ts", "./Schema/t.d.ts"]
 
 
 def consumers(ctx):
@@ -115,7 +115,7 @@ def run(ctx, res):
     res.exhaustive = True
     res.rule = ("TLC enumerates every ordered pair of file paths over {x,y,.,..} to depth %d (Gen_C20); each pair is "
                 "driven through relative_path/normalize_path/resolve_relative_path and judged by Paths!RelContract in "
-                "Trace_C20; likewise every pair over {x,.h,...,.,..} to depth 3 (names that only start with a dot); plus seeded random pairs to depth 7. Consumers: %d events from real CLI runs (output names with inner dots, "
+                "Trace_C20; likewise every pair over {x,X,.h,...,.,..} to depth 3 (names that only start with a dot, names that differ only in case); plus seeded random pairs to depth 7. Consumers: %d events from real CLI runs (output names with inner dots, "
                 ".d.ts / .d.mts / .d.cts / .ts, output directories above / below / beside the inputs): the schema module specifier of every "
                 "operation and resolver declaration file must be relative and resolve to the schema declaration file after the documented "
                 "TS -> JS extension rewrite, every `sources` entry of every source map must resolve to an input file, and every `#import` must resolve to the file its specifier names "
